@@ -203,7 +203,7 @@ def all_schedules(prefix):
 WW_PAIRS = [(["APPEND", "k", "a"], ["APPEND", "k", "b"]), (["RPUSH", "l", "x"], ["RPUSH", "l", "y"]), (["SET", "k", "1"], ["SET", "k", "2"]),
             (["APPEND", "k", "a"], ["SET", "k", "z"]), (["LPUSH", "l", "x"], ["RPOP", "l"]), (["INCR", "n"], ["SET", "n", "10"]),
             (["HSET", "h", "f", "1"], ["DEL", "h"]), (["SADD", "s", "m"], ["SREM", "s", "m"])]
-WW_POINTS = ["cmd.after_handler", "log.write.begin", "log.write.after_cmd"]
+WW_POINTS = ["cmd.after_handler", "aof.log.enter", "log.write.begin", "log.write.after_cmd"]
 
 def two_writers(rng, sid, i):
     """a write command parked between its handler and its log record while a second, non-commuting write to the same key is
